@@ -186,25 +186,15 @@ func ruleC07CteMemo(c *Ctx) {
 	}
 	var reg *ssa.MapUpdate
 	var thunk *ssa.Function
+	var regMc *ssa.MakeClosure
+	var regVia *ssa.Call
 	allInstrs(f, func(_ *ssa.BasicBlock, in ssa.Instruction) {
 		mu, ok := in.(*ssa.MapUpdate)
 		if !ok {
 			return
 		}
-		v := mu.Value
-		for {
-			switch x := v.(type) {
-			case *ssa.MakeInterface:
-				v = x.X
-				continue
-			case *ssa.ChangeType:
-				v = x.X
-				continue
-			}
-			break
-		}
-		if mc, ok := v.(*ssa.MakeClosure); ok {
-			reg, thunk = mu, mc.Fn.(*ssa.Function)
+		if mc, via := closureVia(mu.Value); mc != nil {
+			reg, thunk, regMc, regVia = mu, mc.Fn.(*ssa.Function), mc, via
 		}
 	})
 	if reg == nil {
@@ -220,7 +210,8 @@ func ruleC07CteMemo(c *Ctx) {
 		return regNameRe.ReplaceAllString(s, "")
 	}
 	regKey := norm(NewTB().Of(reg.Key).String())
-	paths, err := WalkFunc(thunk, WalkCfg{MaxVisits: 1, Bind: bindFreeVars(regClosure(reg))})
+	regMap := norm(NewTB().Of(reg.Map).String())
+	paths, err := WalkFunc(thunk, WalkCfg{MaxVisits: 1, Bind: bindFreeVarsVia(regMc, regVia)})
 	if err != nil {
 		c.Unknown("c07.cte-memo", key, c.P.Pos(thunk.Pos()), err.Error())
 		return
@@ -233,6 +224,7 @@ func ruleC07CteMemo(c *Ctx) {
 		}
 		var prep, run *Effect
 		var lastStore *Effect
+		otherMap := ""
 		for i := range p.Effects {
 			e := &p.Effects[i]
 			if e.Kind == "call" && e.Callee == "Prepare" {
@@ -243,6 +235,9 @@ func ruleC07CteMemo(c *Ctx) {
 			}
 			if e.Kind == "mapupdate" && norm(e.Args[1].String()) == regKey {
 				lastStore = e
+				if m := norm(e.Args[0].String()); m != regMap && p.Ret[1].Nil {
+					otherMap = m
+				}
 			}
 		}
 		if !p.Ret[1].Nil {
@@ -267,6 +262,9 @@ func ruleC07CteMemo(c *Ctx) {
 		if rows == nil || rows.V != run.Instr.(ssa.Value) {
 			why = append(why, "the thunk returns "+avString(p.Ret[0])+", not the rows of its subquery")
 		}
+		if otherMap != "" {
+			why = append(why, "a store under the CTE's key goes into "+otherMap+", not into the registry the CTE was registered in ("+regMap+"): when the two differ (the CTE's body has a WITH of its own and works on a private copy) the registry keeps the cycle guard and every later reference fails or re-evaluates")
+		}
 		if lastStore == nil {
 			why = append(why, "the rows are not stored under the CTE's own key: a second reference re-evaluates or reads something else")
 		} else if x := ext0(lastStore.Args[2]); x != nil && x.V == run.Instr.(ssa.Value) {
@@ -278,6 +276,28 @@ func ruleC07CteMemo(c *Ctx) {
 	if n == 0 {
 		why = append(why, "no success path")
 	}
+	// nothing deferred by the thunk writes the registry: a deferred store runs after the memo was stored and takes it
+	// away again (every later reference re-evaluates the CTE)
+	allInstrs(thunk, func(_ *ssa.BasicBlock, in ssa.Instruction) {
+		df, ok := in.(*ssa.Defer)
+		if !ok {
+			return
+		}
+		var g *ssa.Function
+		if mc, ok := stripBox(df.Call.Value).(*ssa.MakeClosure); ok {
+			g = mc.Fn.(*ssa.Function)
+		} else if sc := df.Call.StaticCallee(); sc != nil && sc.Pkg == thunk.Pkg {
+			g = sc
+		}
+		if g == nil {
+			return
+		}
+		deepInstrs(g, func(_ *ssa.Function, _ *TB, _ *ssa.BasicBlock, in2 ssa.Instruction) {
+			if mu, ok := in2.(*ssa.MapUpdate); ok && shortType(mu.Map.Type()) == shortType(reg.Map.Type()) {
+				why = append(why, "a function deferred by the thunk stores into the registry at "+c.P.Pos(mu.Pos())+": it runs after the rows were memoised and replaces the memo — the next reference evaluates the CTE again")
+			}
+		})
+	})
 	c.Check(len(why) == 0, "c07.cte-memo", key, c.P.Pos(thunk.Pos()), "subquery prepared with the enclosing options, run to completion, stored under its own key, returned", strings.Join(uniq(why), "; "))
 }
 
